@@ -67,6 +67,8 @@ func (env *SpecEnv) resolveType(t *SType) types.Type {
 		return types.NewPointer(env.resolveType(t.Ptr))
 	case t.Slice != nil:
 		return types.NewSlice(env.resolveType(t.Slice))
+	case t.MapK != nil:
+		return types.NewMap(env.resolveType(t.MapK), env.resolveType(t.MapV))
 	case t.Pkg != "":
 		for _, imp := range env.pkg.Types.Imports() {
 			if imp.Name() == t.Pkg {
